@@ -1,2 +1,5 @@
 pub mod c12;
 pub mod c13;
+pub mod c16;
+pub mod c14;
+pub mod c15;
